@@ -422,8 +422,8 @@ def reconfigured(run):
         ("add_plugin(GtLtPlugin)", lambda p: p.add_plugin(pl.GtLtPlugin()), lambda p: p.add_plugin(pl.GtLtPlugin())),
         ("replace_plugin(OperatorsPlugin(And=&&))", lambda p: p.replace_plugin(pl.OperatorsPlugin(And="&&")),
          lambda p: p.replace_plugin(pl.OperatorsPlugin(And="&&"))),
-        ("remove_plugins([GroupPlugin object]) then add_plugin(GroupPlugin)",
-         lambda p: (by_obj(pl.GroupPlugin)(p), p.add_plugin(pl.GroupPlugin())), lambda p: None),
+        # (removing a plug-in and adding it again moves it to the end of the list, which may reorder plug-ins of
+        # equal priority: not compared with a fresh parser - the order of equals is nowhere specified)
     ]
     strings = _TOT_STRINGS[::max(1, len(_TOT_STRINGS) // 700)]
 
